@@ -88,7 +88,7 @@ check("C25", "internal/zzverif/c25",
       technique="reference-model monitor (recent-history + MMR model) over generated block histories longer than H",
       level_text="Every block of generated histories is compared with an independent model of 7.5-7.8; held = no divergence on what was explored.",
       note="Trusts the model in harness/internal/zzverif/c25 and refmerkle; the header hash uses the repository's own header encoder (covered by C11).",
-      shards=(8, 16), floors={"any": {"blocks": 5000, "blocks_with_several_packages": 500, "blocks_dropping_oldest": 1000, "discarded_sibling_blocks_on_a_full_history": 300}}, assumptions=[STANDIN_VRF])
+      shards=(8, 16), floors={"any": {"blocks": 5000, "blocks_with_several_packages": 500, "blocks_dropping_oldest": 1000, "discarded_sibling_blocks_on_a_full_history": 300, "histories_on_a_long_lived_chain_state_instance": 200}}, assumptions=[STANDIN_VRF])
 
 PVM_NOTE = ("Trusts refpvm (harness/internal/zzverif/refpvm: ~800 lines written from GP 0.7.2 App. A, no shared code). Not judged (DESIGN §3): sbrk results (U2), "
             "accesses wrapping past 2^32 (U14), branches landing at/after the end of the code (U15), programs with more than 24 operand bytes after an opcode (U17), "
@@ -322,7 +322,7 @@ check("C28", "internal/telemetry",
       level_text="Stress runs of the real client under injected connection faults; every captured stream is replayed through a receiver model and matched with the IDs the emitters received. Held = no misalignment, no blocked emitter and no race report on what was explored.",
       note="In-package harness (newTCPClient, dialer). The bounded model checking mentioned in the property's quantifier is outside this technique family and is not attempted. 'Never block' is judged as: every Emit issued while the connection's Write is parked returns (watchdog 30 s, more than 10^6 times the cost of an Emit). No sleeps are injected into the client's own code (no gofail rewrite); interleavings come from GOMAXPROCS, buffer sizes, Gosched/sleep in the emitters and the fault script.",
       shards=(8, 16), race=True, timeout=(3000, 21600),
-      floors={"any": {"runs": 300, "reconnects": 300, "drop_records": 300, "events_delivered": 20000, "followups_delivered": 1000, "emits_returned_while_write_stalled": 1000, "close_racing_with_emitters": 50, "dial_failures": 30, "clean_ends_with_counter_equal_to_next_seq": 50, "followups_emitted_while_the_connection_was_replaced": 40, "payloadless_events_delivered": 500}},
+      floors={"any": {"runs": 300, "reconnects": 300, "drop_records": 300, "events_delivered": 20000, "followups_delivered": 1000, "emits_returned_while_write_stalled": 1000, "close_racing_with_emitters": 50, "dial_failures": 30, "clean_ends_with_counter_equal_to_next_seq": 50, "followups_emitted_while_the_connection_was_replaced": 40, "payloadless_events_delivered": 500, "events_emitted_with_payloads_of_4_KiB_or_more": 3000}},
       assumptions=[STANDIN_VRF])
 
 check("C32", "internal/zzverif/c32",
@@ -346,8 +346,9 @@ check("C30", "internal/zzverif/c30",
       note="The third-party crate reed-solomon-simd cannot be fetched; lib.rs is compiled against standin/rs-simd (systematic MDS code over GF(2^16), same API subset). Parity shard VALUES are therefore not those of the real code and are not compared with the vectors; only the repository's layout, padding, index handling and memory handling are exercised. valgrind is used on a C driver because it is useless on Go binaries.",
       shards=(4, 16), needs_rs=True, env={"VERIF_C30_VALGRIND": "1"}, mem_gb=8,
       extra_parts=[{"name": "asan", "pkg": "internal/zzverif/c30", "asan": True, "needs_rs": True, "shards": {"quick": 2, "thorough": 8}, "mem_gb": 8},
-                   {"name": "cgocheck", "pkg": "internal/zzverif/c30", "needs_rs": True, "buildenv": {"GOEXPERIMENT": "cgocheck2"}, "shards": {"quick": 2, "thorough": 8}, "mem_gb": 8}],
-      floors={"any": {"round_trips_tiny": 15000, "round_trips_full": 400, "round_trips_from_parity_shards_only": 3000, "official_vectors_systematic_part_checked": 12, "round_trips_under_valgrind": 100}},
+                   {"name": "cgocheck", "pkg": "internal/zzverif/c30", "needs_rs": True, "buildenv": {"GOEXPERIMENT": "cgocheck2"}, "shards": {"quick": 2, "thorough": 8}, "mem_gb": 8},
+                   {"name": "par", "pkg": "internal/zzverif/c30", "needs_rs": True, "race": True, "test": "TestVerifC30Par", "shards": {"quick": 4, "thorough": 8}, "mem_gb": 8}],
+      floors={"any": {"round_trips_tiny": 15000, "round_trips_full": 400, "round_trips_from_parity_shards_only": 3000, "official_vectors_systematic_part_checked": 12, "round_trips_under_valgrind": 100, "concurrent_recoveries": 3000}},
       assumptions=[STANDIN_VRF, "third-party crate reed-solomon-simd replaced by a stand-in MDS code (standin/rs-simd)"])
 
 check("C22", "internal/accumulation",
